@@ -2,6 +2,8 @@
 import JumanjiModel.Bridge.Json
 import JumanjiModel.Env.PacMan.Model
 import JumanjiModel.Env.PacMan.Bounds
+import JumanjiModel.Env.PacMan.Maze
+import JumanjiModel.Gen.PacManMaze
 open Lean Jb
 
 namespace Jb.PacMan
@@ -92,16 +94,38 @@ def opJudge : Op := fun j => do
               ("conserved", jBool (decide (Conserved s s') && ghostsRelOK s s')),
               ("ghosts_rel", jBool (ghostsRelOK s s'))])
 
-/-- C10: the reset state is exactly what the ASCII diagram says, and the diagram is well formed -/
+/-- C10: the reset state is exactly what the ASCII diagram says, and the diagram is well formed.
+`table_check`: the table read off the implementation's reset state (grid, player / ghost starts, pellets, power-ups,
+scatter targets) passes the proved checker `tableCheck` (Props.C10.pacman_table_check_sound; the distance certificate
+is computed here by `bfsDist`).  `reset_is_table_state`: the reset state is `MazeTable.toState` of that table (the
+state Props.C10.pacman_reset_consistent / Props.C07.pacman_run_consistent start from).  `ascii_table`: the model's
+parser yields that table from the configured diagram.  For the default environment (`cfg.generated_default`):
+`generated_table_matches` / `generated_ascii_matches`: the table and the diagram in Gen/PacManMaze.lean, about which
+Props.C10.pacman_default_maze_ok is stated, are the ones of the tree under test. -/
 def opInstance : Op := fun j => do
   let cfg ← field j "cfg"
-  let maze := (← getList getStr (← field cfg "maze")).map String.toList
-  let s ← getState (← field j "state")
+  let mazeStr ← getList getStr (← field cfg "maze")
+  let maze := mazeStr.map String.toList
+  let sj ← field j "state"
+  let s ← getState sj
+  let sc ← fPairs sj "scatter_targets"
   let st := resetState maze
-  pure (jObj [("maze_ok", jBool (decide (MazeOK maze))),
-              ("reset_matches_ascii", jBool (decide (st = some s))),
-              ("consistent", jBool (decide (Consistent s))),
-              ("border_symmetric", jBool (decide (BorderSymmetric s.grid)))])
+  let t := MazeTable.ofState s sc
+  let base : List (String × Json) :=
+    [("maze_ok", jBool (decide (MazeOK maze))),
+     ("reset_matches_ascii", jBool (decide (st = some s))),
+     ("consistent", jBool (decide (Consistent s))),
+     ("border_symmetric", jBool (decide (BorderSymmetric s.grid))),
+     ("table_check", jBool (tableCheck t (bfsDist t.grid t.player))),
+     ("reset_is_table_state", jBool (decide (t.toState = s))),
+     ("ascii_table", jBool (decide (MazeTable.ofAscii maze = some t)))]
+  let gen ← fOpt cfg "generated_default" getBool
+  let extra : List (String × Json) :=
+    if gen = some true then
+      [("generated_table_matches", jBool (decide (t = Gen.PacManMaze.table))),
+       ("generated_ascii_matches", jBool (decide (mazeStr = Gen.PacManMaze.ascii)))]
+    else []
+  pure (jObj (base ++ extra))
 
 /-- {cfg: {time_limit, maze}} → {leaf path: {"lo": rat|null, "hi": rat|null}}: the proved value bounds `obsBounds`
 (C01; `x_size` / `y_size` = rows / columns of the ASCII maze) -/
